@@ -45,7 +45,7 @@ def main():
         # the patch as it applies to the current HEAD
         rc, rebased = sh('git diff', cwd=wt)
         res['rebased_patch'] = rebased
-        rc, out = sh('/var/tmp/mut/check_baseline.sh %s' % wt)
+        rc, out = sh('/verif/bin/check_baseline.sh %s' % wt)
         res['baseline'] = out.strip().split('\n')[-1] if rc == 0 else 'FAIL: ' + out[-400:]
         # demo placement: the notes say where; default root, else try the package named in the file
         demo_ok = None
